@@ -38,6 +38,13 @@ def run(res, tier, seed):
     proof_ok = proof_stage(res, "Rva.Proofs.C19", THEOREMS, extra_modules=["Rva.Proofs.Tables"])
     n = 150 if tier == "quick" else 3000
     srcs = list(KINDS) + list(CORPUS) + SHARED * 6     # exit choice is hash-order dependent: repeat
+    # CSR numbers as the program writes them: beyond the 12-bit address space, negative, and two that
+    # agree in their low 12 bits - each one is its own memory location in the dump and after the reload
+    for a, b in ((4160, 64), (0x1040, 0x40), (8191, 4095), (-1, 4095), (65600, 64), (0xfff, 0x1fff)):
+        srcs.append(f"main:\n    li t1, 3\n    li t2, 7\n    csrrw zero, {a}, t1\n    csrrw zero, {b}, t2\n    csrrwi zero, {a}, 5\n"
+                    f"    csrr t3, {a}\n    csrr t4, {b}\n    add a0, t3, t4\n    li a7, 93\n    ecall\n")
+        srcs.append(f"main:\n    la t0, h\n    csrrw zero, utvec, t0\n    li a7, 10\n    ecall\nh:\n    csrrw t0, {a}, t0\n    sw t1, 0(t0)\n"
+                    f"    sw t2, -4(t0)\n    lw t1, 0(t0)\n    csrr t0, {a}\n    uret\n")
     for _ in range(n):
         s, _ = prog.program(rng, sloppy=rng.choice([0, 0.2]), multi_ret=False)
         srcs.append(s)
